@@ -245,7 +245,7 @@ fn simpler(e: &Ev, timeout: u128) -> Vec<Ev> {
                 v.push(Ev::Fork { k: 1, burst: burst.clone() });
             }
         }
-        Ev::Poll { .. } | Ev::Reset => {}
+        Ev::Poll { .. } | Ev::Reset | Ev::Snapshot | Ev::Restore => {}
     }
     v
 }
